@@ -247,8 +247,11 @@ def _main(argv, holder):
             m["count"] += rec["count"]
             if m["first"] is None:
                 m["first"], m["shard"] = rec["first"], r["shard"]
-        merged["per_shard"].append({"shard": name, "evaluations": res["evaluations"],
-                                    "wall_s": round(r["wall"], 1)})
+        entry = {"shard": name, "evaluations": res["evaluations"], "wall_s": round(r["wall"], 1)}
+        for k in ("fuzz", "fuzz_fallback"):
+            if res.get(k):
+                entry[k] = res[k]
+        merged["per_shard"].append(entry)
 
     # --------------------------------------------------------------- phase 2: shrink new signatures
     new_sigs = [s for s in merged["failures"] if s not in known_sigs]
